@@ -5,6 +5,7 @@ package c10
 import (
 	"fmt"
 	"reflect"
+	"runtime"
 	"sort"
 	"strings"
 	"time"
@@ -18,6 +19,7 @@ import (
 	"verifharness/fw"
 	"verifharness/gv"
 	"verifharness/ref"
+	"verifharness/reg"
 )
 
 // ------------------------------------------------------------------ E1: bank level
@@ -686,6 +688,73 @@ func runE2(c *fw.Ctx, codec string, comp []int, mode int, poolBound int, order i
 	c.Sample(map[string]interface{}{"level": "ReadFile with retention policies", "file": f.Name, "reader": filedrv.ModeName(mode), "executions": st.Executions, "pool_deviation_bound": poolBound, "max_choice_points": st.MaxDepth})
 }
 
+// ------------------------------------------------------------------ E3: what a delivered time.Time shows
+//
+// A decoded time.Time carries a *time.Location; everything it SHOWS (zone name and offset, String, Format) is part
+// of the delivered value and must stay what it was at delivery while the bank is open — including after later
+// blocks have been read into the reader's buffers.
+
+type TRec struct {
+	T time.Time  `json:"t"`
+	P *time.Time `json:"p"`
+}
+
+func runE3(c *fw.Ctx, codec string, ci int) {
+	reg.Init()
+	rs := ref.Record("TRec", ref.F("t", ref.Prim("string")), ref.F("p", ref.Union(ref.Prim("null"), ref.Prim("string"))))
+	// offsets nobody else in this process parses (the library caches one Location per offset)
+	offs := []string{"+01:13", "-04:16", "+11:07", "-00:29", "+01:13"}
+	var blocks []ref.Block
+	var texts []string
+	for i, o := range offs {
+		o = o[:4] + fmt.Sprint((int(o[4]-'0')+ci)%6) + o[5:]
+		txt := fmt.Sprintf("2021-03-%02dT05:06:07%s", i+1, o)
+		texts = append(texts, txt)
+		blocks = append(blocks, ref.Block{Count: 1, Payload: ref.Encode(rs, ref.DRecord(ref.DString(txt), ref.DUnion(1, ref.DString(txt))))})
+	}
+	data, _ := ref.WriteFile(ref.StdMeta(rs.Print(nil), codec, true), codec, [16]byte{3, 3, 3}, blocks)
+	show := func(t time.Time) string {
+		n, off := t.Zone()
+		return strings.Clone(fmt.Sprintf("zone=%q/%d string=%s mst=%s", n, off, t.String(), t.Format("MST -07:00")))
+	}
+	locus := "time-zone|" + codec
+	desc := "ReadFile of 5 one-record blocks of RFC 3339 strings with offsets " + fmt.Sprint(offs) + " into struct{T time.Time; P *time.Time}, all records kept, banks open"
+	c.Eval(1)
+	c.Nontrivial(desc + codec)
+	c.Begin(locus, desc)
+	c.Guard(locus, desc, desc, func() {
+		var kept []TRec
+		var shown []string
+		var banks []*avro.ResourceBank
+		err := avro.ReadFile(&filedrv.Reader{Data: data}, TRec{}, func(val unsafe.Pointer, rb *avro.ResourceBank) error {
+			r := *(*TRec)(val)
+			kept = append(kept, r)
+			shown = append(shown, show(r.T)+" | "+show(*r.P))
+			banks = append(banks, rb)
+			return nil
+		})
+		if err != nil || len(kept) != len(offs) {
+			c.Violation("read-error|"+locus, fmt.Sprintf("err=%v records=%d — %s", err, len(kept), desc), desc)
+			return
+		}
+		for i, r := range kept {
+			want, _ := time.Parse(time.RFC3339, texts[i])
+			if now := show(r.T) + " | " + show(*r.P); now != shown[i] {
+				c.Violation("retained-record-changed|"+locus, fmt.Sprintf("record %d showed %s when delivered and shows %s after the rest of the file was read — %s", i, shown[i], now, desc), desc)
+				return
+			}
+			if _, off := r.T.Zone(); !r.T.Equal(want) || off != func() int { _, o := want.Zone(); return o }() {
+				c.Violation("delivered-record-wrong|"+locus, fmt.Sprintf("record %d is %s, the file says %s — %s", i, r.T, texts[i], desc), desc)
+				return
+			}
+		}
+		runtime.KeepAlive(banks)
+	})
+	c.Count("states", 1)
+	c.Count("transitions", int64(len(offs)))
+	c.Sample(map[string]interface{}{"level": "what delivered time.Time values show", "codec": codec, "timestamps": texts})
+}
+
 type task struct {
 	name string
 	run  func(c *fw.Ctx)
@@ -719,6 +788,10 @@ func tasks(tier string) []task {
 			}
 		}
 	}
+	for ci, codec := range []string{"null", "deflate", "snappy"} {
+		ci, codec := ci, codec
+		ts = append(ts, task{"time zones " + codec, func(c *fw.Ctx) { runE3(c, codec, ci) }})
+	}
 	memo[tier] = ts
 	return ts
 }
@@ -732,7 +805,7 @@ func init() {
 			if tier == "thorough" {
 				depth, banks, pb = 7, 3, 3
 			}
-			return fmt.Sprintf("built with the sync→zzvsync overlay so that sync.Pool recycling is an explored choice. (E1) explicit-state BFS over sequences (depth %d) of real ResourceBank/ReadBuf operations {alloc(int64), alloc(struct with pointer and string), 17×alloc (arena growth), ToString/NextAsString of 2 and 300 bytes (string store regrowth), Close(bank i), ExtractResourceBank with Pool.Get answer ∈ {new, each of the 2 most recently pooled banks}, recycle (the ReadBuf's bank goes through Close and the pool and comes back)} over the ReadBuf's bank and <=%d extracted banks; successor = replay on a fresh world + one operation; canonical state = per physical bank (role, fill levels, high-water classes) and pool order; shadow-heap model: after EVERY step a new allocation must be all-zero and disjoint (address ranges) from every live allocation and string of every open bank, and every live allocation and string must still hold its pattern. (E2) ReadFile over 4-record files (strings, bytes, slices, maps of strings / longs / records, pointers to long and to a record — map values and pointer targets of the same types; an all-empty record as third or as second of the four) × 3 codecs × 4 block partitions × 2 reader modes, with the callback's retention policy (keep / close own bank / close the bank of any earlier open record) explored exhaustively and Pool.Get answers with <=%d deviations: every retained shallow copy whose bank is open must equal the deep copy taken at delivery, at every later callback, at the end, and again after a second ReadFile (whose banks are closed at once) has run; distinct_nontrivial = distinct histories / choice vectors checked", depth, banks, pb)
+			return fmt.Sprintf("built with the sync→zzvsync overlay so that sync.Pool recycling is an explored choice. (E1) explicit-state BFS over sequences (depth %d) of real ResourceBank/ReadBuf operations {alloc(int64), alloc(struct with pointer and string), 17×alloc (arena growth), ToString/NextAsString of 2 and 300 bytes (string store regrowth), Close(bank i), ExtractResourceBank with Pool.Get answer ∈ {new, each of the 2 most recently pooled banks}, recycle (the ReadBuf's bank goes through Close and the pool and comes back)} over the ReadBuf's bank and <=%d extracted banks; successor = replay on a fresh world + one operation; canonical state = per physical bank (role, fill levels, high-water classes) and pool order; shadow-heap model: after EVERY step a new allocation must be all-zero and disjoint (address ranges) from every live allocation and string of every open bank, and every live allocation and string must still hold its pattern. (E2) ReadFile over 4-record files (strings, bytes, slices, maps of strings / longs / records, pointers to long and to a record — map values and pointer targets of the same types; an all-empty record as third or as second of the four) × 3 codecs × 4 block partitions × 2 reader modes, with the callback's retention policy (keep / close own bank / close the bank of any earlier open record) explored exhaustively and Pool.Get answers with <=%d deviations: every retained shallow copy whose bank is open must equal the deep copy taken at delivery, at every later callback, at the end, and again after a second ReadFile (whose banks are closed at once) has run; (E3) what delivered time.Time values SHOW (zone name, offset, String, Format) for RFC 3339 strings with five unusual offsets in five blocks must be unchanged after the rest of the file has been read; distinct_nontrivial = distinct histories / choice vectors checked", depth, banks, pb)
 		},
 		Assumptions: []string{
 			"double Close of one bank and use after Close are API misuse and excluded from the alphabet",
